@@ -87,12 +87,17 @@ impl Prop for C14 {
             // the name is the first LINE of standard input; what follows it (more lines, bytes that are not UTF-8, CR LF endings) is not part of it
             let mut stdin = format!("{}\n", name).into_bytes();
             match (i + getn(c, "seed")) % 4 { 1 => stdin.extend_from_slice(&[0xff, 0xfe, b'x', b'\n']), 2 => { stdin.pop(); stdin.extend_from_slice(b"\r\nsecond line\n"); } _ => {} }
+            // other files next to the keyring (an editor's backup, a leftover temporary, a lock file) are none of the command's business:
+            // they do not change what it writes, and they are still there, unchanged, afterwards
+            let siblings: Vec<(String, Vec<u8>)> = if getn(c, "seed") % 2 == 0 { vec![("ring.txt.tmp".into(), b"[Key]\nName = leftover\nPublicKey = AAAA\n".to_vec()), ("ring.txt~".into(), b"old backup\n".to_vec()), (".ring.txt.swp".into(), vec![0u8; 64]), ("ring.txt.lock".into(), vec![])] } else { vec![] };
+            files.extend(siblings.iter().cloned());
             let world = World { files, env: vec![("KESTREL_PASSWORD".into(), pw.into())], stdin };
             let args = sv(&["key", "gen", "-o", "ring.txt", "--env-pass"]);
             let obs = run_kestrel(&world, &args);
             let mo = model_cli(m, &world, &args, &rng.bytes(32), &rng.bytes(32)); o.validated += 1;
             let label = format!("generation {} ({:?}) into {} keyring", i + 1, name, init);
             if obs.exit != Some(0) { o.oracle_fail = Some(("generate-succeeds".into(), format!("{}: exit {:?}: {}", label, obs.exit, obs.stderr.trim()))); return o; }
+            for (n, b) in &siblings { if obs.file(n) != Some(b) { o.oracle_fail = Some(("neighbouring-files-untouched".into(), format!("{}: the file {:?} next to the keyring was changed or removed by the command", label, n))); return o; } }
             let Some(newf) = obs.file("ring.txt").cloned() else { o.oracle_fail = Some(("file-written".into(), format!("{}: no file", label))); return o; };
             if let Some(old) = &cur { if !newf.starts_with(old) { o.impl_obs = format!("before {}B, after {}B", old.len(), newf.len()); o.oracle_fail = Some(("earlier-contents-are-a-prefix".into(), format!("{}: the previous {} bytes of the keyring are not a prefix of the new contents ({} bytes) — existing keys were overwritten", label, old.len(), newf.len()))); return o; } }
             let parsed = rust_parse(&String::from_utf8_lossy(&newf));
